@@ -53,6 +53,14 @@ type Boxed struct {
 	val Val
 }
 
+// RangeVal is a map range in progress.
+type RangeVal struct {
+	m        Term
+	visited  *Cell
+	keySort  string
+	elemSort string
+}
+
 type BytesRef struct {
 	cell     *Cell
 	off, len Term
@@ -623,6 +631,11 @@ func (fr *Frame) enterLoop(h *ssa.BasicBlock, st *St, reach Term, phiVals map[*s
 	}
 	// iterator positions and cells reachable only through captured pointers
 	for c, v := range nst.cells {
+		if strings.HasPrefix(c.name, "rangevisited") {
+			if tv, ok := v.(Term); ok {
+				nst.cells[c] = ex.fresh("h_"+c.name, tv.Sort)
+			}
+		}
 		if strings.HasPrefix(c.name, "itpos") {
 			if tv, ok := v.(Term); ok {
 				_ = tv
